@@ -4,7 +4,7 @@ unbounded-in-range symbolic integer travelling through the strings as a digit to
 import builtins, importlib.util, os, re, sys
 import z3
 from symex.runner import Harness
-from symex.engine import SymInt, SymBool, _zi
+from symex.engine import SymInt, SymBool, _zi, PathAbort
 
 TOKRE = re.compile(r'9\d{15}')
 
@@ -34,7 +34,7 @@ CAN_OUT = {'VideoIn': True, 'Util': True, 'Filter': True, 'VideoOut': False, 'We
 SUFFIXES = ['', '?', '??', ';main', ';a>b;c', '!opt', ';t?', ';x!no-y']
 
 
-def mk_scenario(nmax, planted=None, with_ipc=True, classes=CLASSES, suffixes=SUFFIXES, fixed_classes=None, nmin=1, light=False):
+def mk_scenario(nmax, planted=None, with_ipc=True, classes=CLASSES, suffixes=SUFFIXES, fixed_classes=None, nmin=1, light=False, id_clash=False, minimal=False):
     def scenario(e):
         STATE['tokens'] = toks = {}
         def token(si):
@@ -55,9 +55,14 @@ def mk_scenario(nmax, planted=None, with_ipc=True, classes=CLASSES, suffixes=SUF
             cls = fixed_classes[i] if fixed_classes else classes[e.choice(f'cls{i}', len(classes))]
             spec = {'cls': cls, 'id': None, 'sources': 'absent', 'outputs': 'absent', 'src_text': None, 'out_text': None}
             args = [cls]
-            if not (light and i == n - 1) and e.choice(f'hasid{i}', 2):      # (light: the last filter, which nothing refers to, keeps its default id)
+            if id_clash:
+                # explicit ids that look like automatically generated ones (class name, class name + number): unique final ids or a refusal, never two filters with one id
+                idk = e.choice(f'idform{i}', 5)
+                if idk: spec['id'] = [None, f'f{i}', 'Util', 'Util1', 'Util2'][idk]; args.append('--id=' + spec['id'])
+            elif not (light and i == n - 1) and e.choice(f'hasid{i}', 2):      # (light: the last filter, which nothing refers to, keeps its default id)
                 spec['id'] = f'f{i}'; args.append(f'--id=f{i}')
             sk = e.choice(f'src{i}', 4 if i else 2)       # 0 absent (auto chain), 1 empty, 2 id reference (+suffix), 3 explicit address
+            if minimal and sk in (1, 3): raise PathAbort
             if sk == 0 and gunset: args.append('--sources=')      # documented: an empty string means "not set at all"
             if sk == 1: spec['sources'] = 'empty'; args.append(['--sources=""', '--sources'][gempty])
             elif sk == 2:
@@ -69,7 +74,7 @@ def mk_scenario(nmax, planted=None, with_ipc=True, classes=CLASSES, suffixes=SUF
                 spec['sources'] = ('addr', p, suf); spec['src_text'] = f'tcp://host{i}:{token(p)}{suf}'
                 args.append('--sources=' + spec['src_text'])
             if CAN_OUT[cls]:
-                ok = e.choice(f'out{i}', 4)               # 0 absent, 1 empty, 2 explicit port, 3 explicit default port / ipc
+                ok = 0 if minimal else e.choice(f'out{i}', 4)               # 0 absent, 1 empty, 2 explicit port, 3 explicit default port / ipc
                 if ok == 0 and gunset: args.append('--outputs=')
                 if ok == 1: spec['outputs'] = 'empty'; args.append(['--outputs=""', '--outputs'][gempty])
                 elif ok == 2:
@@ -100,6 +105,8 @@ def mk_scenario(nmax, planted=None, with_ipc=True, classes=CLASSES, suffixes=SUF
         flat = []
         for k, a in enumerate(argv):
             flat += a + (['-'] if k < len(argv) - 1 else [])
+        fids = [s['fid'] for s in specs]
+        dup_expected = len(set(fids)) != len(fids)
         try:
             res = CM.parse_filters(flat[::-1], ipc)
         except ValueError as ex:
@@ -111,6 +118,7 @@ def mk_scenario(nmax, planted=None, with_ipc=True, classes=CLASSES, suffixes=SUF
             return
         e.observed(f'wired{n}')
         if planted: e.fail('planted', 'twin', {'kind': 'planted'})
+        if dup_expected: e.fail('ids', f'{flat}: two filters end up with one id ({fids}) and the command line was accepted', {'kind': 'ids'})
         cfgs = [c for _, c, _ in res]
         ids = [c.get('id') for c in cfgs]
         if len(set(ids)) != len(ids) or any(not i for i in ids): e.fail('ids', f'ids not unique: {ids}', {'kind': 'ids'})
@@ -192,6 +200,9 @@ def harnesses(tier):
           Harness('c12.parse_filters.chain', mk_scenario(3, nmin=3, suffixes=SUFFIXES[:2] if q else SUFFIXES[:4], with_ipc=not q, fixed_classes=['VideoIn', 'Util', 'VideoOut']),
                   bounds={'filters': 3, 'classes': 'VideoIn, Util, VideoOut in this order', **bounds}, functions=fn, stubs=stubs, assumptions=assume,
                   budget_s=900 if q else 3000)]
+    hs.append(Harness('c12.parse_filters.ids', mk_scenario(4, nmin=3, suffixes=SUFFIXES[:1], with_ipc=True, fixed_classes=['VideoIn', 'Util', 'Util', 'Util'], light=True, id_clash=True, minimal=True),
+                      bounds={'filters': '3-4 (VideoIn, Util, Util[, Util])', '--id': 'absent / f<i> / Util / Util1 / Util2 (explicit ids that look like automatically generated ones)',
+                              '--sources': 'absent or id reference', '--outputs': 'absent', '--ipc': 'on/off'}, functions=fn, stubs=stubs, assumptions=assume, budget_s=600))
     if not q:
         hs.append(Harness('c12.parse_filters.chain4', mk_scenario(4, nmin=4, suffixes=SUFFIXES[:1], with_ipc=False, fixed_classes=['VideoIn', 'Util', 'Filter', 'VideoOut'], light=True),
                           bounds={'filters': 4, 'classes': 'VideoIn, Util, Filter, VideoOut', **bounds, 'suffixes': [''], '--ipc': 'off', 'forms': 'one spelling of empty / unset; the sink keeps its default id'}, functions=fn, stubs=stubs, assumptions=assume, budget_s=3000))
